@@ -12,6 +12,13 @@ MAXP = 65535
 BOUNDARY = [1, 2, 3, 4, 5, 65531, 65532, 65533, 65534, 65535]
 
 
+def _names(proto, plat, version) -> dict:
+    """The harness's own copy of the library's name table (see model.port_table)."""
+    from .model import port_table
+    pr = 6 if str(proto) in ("tcp", "6") else 17
+    return port_table(plat, version or "0", pr)
+
+
 def denote(op: str, operands) -> frozenset:
     if op == "eq":
         return frozenset(operands)
@@ -171,8 +178,7 @@ class PortMachine(Machine):
         toks = []
         names = {}
         if cfg["names"]:
-            names = {v: k for k, v in PortName(protocol=proto, platform=plat,
-                                               version=version).names().items()}
+            names = {v: k for k, v in _names(proto, plat, version).items()}
         for x in operands:
             if x in names and w.random() < 0.7:
                 toks.append(names[x])
@@ -285,8 +291,7 @@ class PortMachine(Machine):
         toks = line.split()
         if not toks:
             return None
-        names = PortName(protocol=slot["proto"], platform=slot["plat"],
-                         version=slot["version"]).names()
+        names = _names(slot["proto"], slot["plat"], slot["version"])
         vals = []
         for tok in toks[1:]:
             if tok.isdigit():
@@ -394,7 +399,7 @@ class PortMachine(Machine):
         toks = line.split()
         if not toks or toks[0] not in ("eq", "neq", "lt", "gt", "range"):
             return None
-        names = PortName(protocol=proto, platform=plat, version=version).names()
+        names = _names(proto, plat, version)
         vals = []
         for tok in toks[1:]:
             if tok.isdigit():
